@@ -144,13 +144,17 @@ theorem for_else_not_when_nonempty (W : World) (f : Nat) (ctx : Ctx) (st st1 : S
   have h2 : loopNodes.isEmpty = false := by cases loopNodes <;> simp_all
   simp [evalVFor, h1, hl, bindR, h2]
 
-/-- … and when it produced nothing, the first following element sibling (text and comments in between skipped) is rendered iff it carries `v-else` -/
+/-- … and when it produced nothing, the first following element sibling (text and comments in between skipped) is rendered iff it carries
+    `v-else` (and, when it is also marked v-once, iff it was not rendered before in this render — `onceGate`) -/
 theorem for_else_when_empty (W : World) (f : Nat) (ctx : Ctx) (st st1 : St) (tag : Str) (attrs : List Attr) (kids pre post : List Node)
     (t : Str) (a : List Attr) (k : List Node) (hv : getAttr attrs (S "v-for") ≠ [])
     (hl : evalFor W f ctx st tag attrs kids (getAttr attrs (S "v-for")) = .ok ([], st1))
     (hpre : ∀ n ∈ pre, isElem n = false) :
     evalVFor W (f + 1) ctx st tag attrs kids (pre ++ .elem t a k :: post) =
-      if hasAttr a (S "v-else") then bindR (evalAsElement W f ctx st1 t a k) (fun res st2 => .ok ((res, pre.length + 1), st2))
+      if hasAttr a (S "v-else") then
+        (match onceGate st1 a with
+         | none => .ok (([], 0), st1)
+         | some st1' => bindR (evalAsElement W f ctx st1' t a k) (fun res st2 => .ok ((res, pre.length + 1), st2)))
       else .ok (([], 0), st1) := by
   have h1 : (getAttr attrs (S "v-for") == []) = false := by simpa using hv
   have htw : (pre ++ .elem t a k :: post).takeWhile (fun x => !isElem x) = pre := by
@@ -161,6 +165,11 @@ theorem for_else_when_empty (W : World) (f : Nat) (ctx : Ctx) (st st1 : St) (tag
       simp only [List.cons_append, List.takeWhile, hn, Bool.not_false]
       rw [ih (fun x hx => hpre x (by simp [hx]))]
   simp only [evalVFor, h1, Bool.false_eq_true, ↓reduceIte, hl, bindR, List.isEmpty_nil, Bool.not_true, htw]
-  simp
+  simp only [List.getElem?_append_right (Nat.le_refl _), Nat.sub_self, List.getElem?_cons_zero]
+  split <;> rfl
+
+/-- an element without v-once always passes the gate unchanged -/
+theorem onceGate_plain (st : St) (a : List Attr) (h : hasAttr a (S "v-once") = false) : onceGate st a = some st := by
+  simp [onceGate, h]
 
 end Vuego.Props.C04
